@@ -1,7 +1,7 @@
 (* Main.v — single entry point of the extracted model: one request tree in, one
    response tree out.  The OCaml driver only parses and prints trees. *)
 From Coq Require Import String List.
-From Prov Require Import Str Sexp Tables Nsm Scope Values Record World Jtree Json JsonSpec Provn ProvnSpec XmlSpec IO Dot Xml Rdf Rdfq Interp.
+From Prov Require Import Str Sexp Tables Nsm Scope Values Record World Jtree Json JsonSpec Provn ProvnSpec XmlSpec IO Dot Xml XmlLabel Rdf Rdfq Interp.
 Import ListNotations.
 Open Scope string_scope.
 
@@ -53,6 +53,20 @@ Definition run (req : sexp) : sexp :=
           end
       | _, _ => A "bad-request"
       end
+  | L [A "xmllabel"; A kind; L pairs] =>
+      let px_pair (x : sexp) : option (qname * value) :=
+        match x with
+        | L [a; v] => match px_qn a, px_valarg v with
+                      | Some aq, Some va => option_map (fun vv => (aq, vv)) (valarg_value va)
+                      | _, _ => None
+                      end
+        | _ => None
+        end in
+      match px_list px_pair pairs with
+      | Some l => sx_label (record_label kind l)
+      | None => A "bad-request"
+      end
+  | L [A "xmlreadlabel"; A lab] => sx_read_label (read_label lab)
   | L [A "rdfpred"; A k; A attr] => L [A (enc_pred k attr); A (dec_pred k (enc_pred k attr))]
   | L (A "rdfq" :: rels) =>
       match px_list px_rrec rels with
